@@ -27,6 +27,28 @@ CLAIMS.update({
    technique="Lean 4 proof (clause-level equality of state transformers, value-level XOR law) + exhaustive relational judge on implementation verdicts",
    ref="DESIGN.md §5 C03"),
 })
+CLAIMS.update({
+ "C04": dict(
+   text="Lean theorems (lists of every length): every aggregation the evaluator performs is invariant under permutation and duplication of its inputs, and stopping a line at its first PASS yields the same line status as evaluating all alternatives in any order; the rule-status memo returns what was stored. The premise that no clause changes what another one sees is checked per case: structured random programs with all permutations of lines (<= 4), alternatives and rules, repeated lines/alternatives and rules duplicated under a new name, implementation verdicts compared across each class. The premise is FALSE for key-capture variables: listed known finding F-C04-1, whose canonical replay is re-run every time.",
+   note="Partial: the end-to-end statement for the evaluator needs the memo-soundness invariant (not proved); it is judged per case. Known finding F-C04-1 (known_findings.json).",
+   technique="Lean 4 proof of permutation/duplication/short-circuit invariance of all aggregators + permutation-class judge on implementation verdicts",
+   ref="DESIGN.md §5 C04"),
+ "C15": dict(
+   text="Lean theorems on the evaluator model's scope chain, for every scope state: a literal variable resolves to exactly its literal without touching the state; a memoised variable returns the stored result set (every later reference sees the same value); value scopes and parameter contexts are transparent for names they do not bind; inner literals shadow outer definitions; parameters resolve to the argument's result set; unbound names are errors; the documented emptiness exception is stated. The general substitution statement for query variables is judged on every generated abstraction site (file / rule / block / when scope, prefix abstraction, shadowing, twice, unused and erroring variables, parameterised rules) by comparing implementation verdicts.",
+   note="Partial: query-variable substitution for all programs is not proved (needs memo soundness over the fuel-indexed evaluator).",
+   technique="Lean 4 proof of scope-chain lemmas + abstraction-site judge on implementation verdicts + correspondence",
+   ref="DESIGN.md §5 C15"),
+ "C06": dict(
+   text="The exit-code folds of validate (plain: last non-zero wins; structured json/yaml/sarif; junit: 5 kept over 19) and test (single, --dir, plain and structured, 1 sticky over 7) are modelled in Lean over per-file outcomes with the numeric codes re-extracted from /repo on every run, and the property's iff's are proved for ANY number of rules files, data files and test cases (0 iff all parsed and no FAIL; all parse + FAIL => 19; parse error + no FAIL => 5; Err => 255, never 0/19; test: 0 iff everything parses and matches, 7 for a mismatch). Tied by running the REAL binary on every (rules class x data class x mode) pair and on random 1..3 x 1..3 scenarios and comparing process exit statuses with the model; the iff's are judged directly on the observed exit statuses.",
+   note="Trusted: clap argument handling, file system, process exit are interface; per-pair statuses fed to the model come from the implementation itself. Two genuine defects repaired (40c0885 unreadable rules file exit 0; 6fa14a5 test -o json exit 0 on unparsable rules).",
+   technique="Lean 4 proof over exit-code folds with generated constants + real-binary correspondence + iff judge",
+   ref="DESIGN.md §5 C06, Appendix C"),
+ "C09": dict(
+   text="Lean mirror of simplified_json_from_root / report_all_failed_clauses_for_rules / FileReport::combine / Status::and, with theorems for every record tree: each evaluated rule appears under exactly the heading of its status; file status FAIL iff not_compliant non-empty, PASS iff empty and compliant non-empty (on a consistent tree); combine = union + Status::and = two-element aggregation = the table GENERATED from rules/mod.rs; every listed check IS a recorded failed check of that rule (custom message included), every FAIL rule is listed, nothing is attributed to PASS/SKIP rules. The model's report function is applied to the implementation's own trees and compared with the implementation's reports (library and real binary with 1..3 rules files); the statements are also judged directly on the implementation's report vs its tree.",
+   note="Trusted: serde_json serialisation is only read back. A genuine defect found by this check was repaired (5cf016c).",
+   technique="Lean 4 proof by mutual structural induction over record trees + model-on-implementation-tree correspondence + report judge",
+   ref="DESIGN.md §5 C09"),
+})
 REASONS = {}
 def main():
     checks = []
